@@ -148,6 +148,8 @@ pub struct MtState {
     pub data_offset: usize,
     pub mbox: (usize, usize),
     pub words: [usize; 5],
+    /// per thread: value-changing atomic accesses to allocator state (everything but the reference count)
+    pub state_changes: Vec<u64>,
     pub torn_down: bool,
     pub teardowns: u64,
     pub shadow: Vec<ShadowRange>,
@@ -678,6 +680,9 @@ pub fn after(t: usize, a: &Access) {
     if s.hb {
         hb_atomic(s, t, a, changed);
     }
+    if changed && a.addr != s.words[4] && t < s.state_changes.len() {
+        s.state_changes[t] += 1;
+    }
     if changed {
         for x in s.since_change.iter_mut() {
             *x = 0;
@@ -1071,7 +1076,7 @@ fn run_top(t: usize, op: &TOp, arenas: &mut Vec<Option<Box<Arena>>>, handles: &m
                             AllocKind::Typed => (ti.size > 0 && (cap != ti.size || off % ti.align != 0)).then(|| format!("alloc::<{}>() returned offset {} capacity {}", ti.name, off, cap)),
                             AllocKind::Aligned => {
                                 let need = if ti.size == 0 { *size as usize } else { ti.size + *size as usize };
-                                ((ti.size > 0 && off % ti.align != 0) || cap < need).then(|| format!("alloc_aligned_bytes::<{}>({}) returned offset {} (align {}) capacity {} < {}", ti.name, size, off, ti.align, cap, need))
+                                ((need > 0 && off % ti.align != 0) || cap < need).then(|| format!("alloc_aligned_bytes::<{}>({}) returned offset {} (align {}) capacity {} < {}", ti.name, size, off, ti.align, cap, need))
                             }
                         };
                         if let Some(d) = bad {
@@ -1123,10 +1128,19 @@ fn run_top(t: usize, op: &TOp, arenas: &mut Vec<Option<Box<Arena>>>, handles: &m
                 }
                 s.list_ops_in_flight[t] = true;
             });
+            // C13 under interleavings: a handle that is dropped without having been detached gives its extent back -
+            // to the cursor, to the list or to discarded(); a drop that changes nothing released nothing
+            let (_, _, _, bcap) = th.h.0.meta();
+            let before = with(|s| s.state_changes[t]);
             call_begin(t, "drop(handle)".into());
             drop(th);
             call_end(t);
-            with(|s| s.list_ops_in_flight[t] = false);
+            with(|s| {
+                s.list_ops_in_flight[t] = false;
+                if bcap > 0 && s.state_changes[t] == before && s.abort.is_none() {
+                    s.violation("C13", "release_nothing", format!("[under interleaving] T{} dropped a handle with a buffer extent of {} bytes and the arena did not change: not given back to the cursor, not linked into the free list, not added to discarded()", t, bcap));
+                }
+            });
         }
         TOp::DetachForget { h } => {
             if handles.is_empty() {
@@ -1297,6 +1311,7 @@ pub fn install(arena: &Arena, p: &MtParams, initial_shadow: Vec<ShadowRange>) {
         data_offset: arena.data_offset(),
         mbox,
         words,
+        state_changes: vec![0; n],
         torn_down: false,
         teardowns: 0,
         shadow: initial_shadow,
